@@ -32,6 +32,7 @@ class FnSpec:
         self.decreases = None
         self.loops = []      # dicts
         self.closures = []   # dicts
+        self.safety = None
         self.inserts = []    # dicts: where ('before'|'after'), anchor, k, text
         self.noverify = False
 
@@ -150,6 +151,11 @@ def parse_vspec(path):
             raise Undecided('%s:%d: @%s outside @fn' % (vfile, vline, d))
         elif d == 'props':
             cur.props = parse_props(rest)
+            sink = None
+        elif d == 'safety':
+            # properties the function's IMPLICIT obligations (index bounds, overflow, unwrap, callee preconditions) serve;
+            # default: @props
+            cur.safety = parse_props(rest)
             sink = None
         elif d == 'ret':
             cur.ret = rest.strip()
